@@ -44,6 +44,8 @@ type C11ConnScript struct {
 	Partial      bool   `json:"partial"`                 // responses are sent in two steps
 	MaxStreams   int64  `json:"max_streams"`
 	Silent       bool   `json:"silent"` // never answers (MaxResponseTime must end the requests)
+	// GoAwayRBit: the reserved bit in front of last-stream-id is set (a receiver must ignore it, RFC 7540 6.8)
+	GoAwayRBit bool `json:"goaway_rbit,omitempty"`
 }
 
 type C11Plan struct {
@@ -85,7 +87,8 @@ type c11Attempt struct {
 	disclaimed string // "" | goaway | refused
 	answered   int    // 0 none, 1 headers, 2 complete
 	status     int
-	afterGA    bool // the HEADERS reached the server after the client had certainly processed this connection's GOAWAY
+	afterGA    bool          // the HEADERS reached the server after the client had certainly processed this connection's GOAWAY
+	seenNow    time.Duration // fake time at which the HEADERS reached the server
 }
 
 type c11Conn struct {
@@ -135,17 +138,19 @@ type c11Caller struct {
 }
 
 type c11Result struct {
-	retry bool
-	err   string
+	retry    bool
+	err      string
+	from, to time.Duration // fake time of the call and of its return
 }
 
 type c11Event struct {
-	kind  string
-	k     int
-	retry bool
-	err   error
-	snap  *RespSnap
-	final bool
+	kind   string
+	k      int
+	retry  bool
+	err    error
+	snap   *RespSnap
+	final  bool
+	t0, t1 time.Time
 }
 
 type C11World struct {
@@ -273,7 +278,9 @@ func (w *C11World) startCaller(k int) {
 				req.SetBody(genBody(k, q.Body))
 			}
 			res := &fasthttp.Response{}
+			t0 := time.Now()
 			retry, err := w.cl.RoundTrip(w.hc, req, res)
+			t1 := time.Now()
 			// the request is the caller's again: whatever it does with it now must not reach the wire
 			if b := req.Body(); len(b) > 0 {
 				for i := range b {
@@ -286,7 +293,7 @@ func (w *C11World) startCaller(k int) {
 				snap = appSnapResponse(res)
 			}
 			final := !(retry && idem) || attempt == 2
-			ev <- c11Event{kind: "result", k: k, retry: retry, err: err, snap: snap, final: final}
+			ev <- c11Event{kind: "result", k: k, retry: retry, err: err, snap: snap, final: final, t0: t0, t1: t1}
 			if final {
 				return
 			}
@@ -310,7 +317,7 @@ func (w *C11World) drain() {
 				if e.err != nil {
 					es = e.err.Error()
 				}
-				c.results = append(c.results, c11Result{e.retry, es})
+				c.results = append(c.results, c11Result{e.retry, es, e.t0.Sub(w.sim.Start), e.t1.Sub(w.sim.Start)})
 				w.sim.Obs("rt " + itoa(e.k) + " retry=" + strconv.FormatBool(e.retry) + " err=" + es)
 				w.sim.Logf("RoundTrip %d returned retry=%v err=%s", e.k, e.retry, es)
 				if e.final {
@@ -389,7 +396,7 @@ func (w *C11World) parse(c *c11Conn) {
 			if _, dup := c.byStream[f.Stream]; dup {
 				continue
 			}
-			a := &c11Attempt{tag: tag, conn: c.idx, stream: f.Stream, step: w.sim.Steps, afterGA: c.gaProcessed}
+			a := &c11Attempt{tag: tag, conn: c.idx, stream: f.Stream, step: w.sim.Steps, afterGA: c.gaProcessed, seenNow: w.sim.Now()}
 			c.byStream[f.Stream] = a
 			c.streams = append(c.streams, f.Stream)
 			w.attempts[tag] = append(w.attempts[tag], a)
@@ -489,7 +496,12 @@ func (w *C11World) EnvActions() []Action {
 					}
 				}
 				w.Probes["goaway"]++
-				c.send(c.fw.GoAway(c.goAwayLast, c.script.GoAwayCode, nil))
+				ga := c.fw.GoAway(c.goAwayLast, c.script.GoAwayCode, nil)
+				if c.script.GoAwayRBit {
+					ga[9] |= 0x80
+					w.Probes["goaway-reserved-bit"]++
+				}
+				c.send(ga)
 			}})
 		}
 		// answers, refusals
@@ -619,6 +631,29 @@ func (w *C11World) final() *Violation {
 }
 
 func (w *C11World) finalRules(mk func(rule, sig, d string) *Violation) {
+	// (t) "within its configured timeout": a call whose last attempt reached a server that did not disclaim it returns no
+	// later than MaxResponseTime after that (the timer is armed before the request is handed to the connection; the
+	// clock of this family only moves when everything is quiescent, so a fired timer's effects are complete before
+	// the clock moves again). Not judged when the link stalled: a write parked in the transport cannot be called back.
+	if M := w.plan.MaxResponseTime; M > 0 {
+		for k, c := range w.callers {
+			for _, r := range c.results {
+				var last *c11Attempt
+				for _, a := range w.attempts[k] {
+					if a.seenNow >= r.from && a.seenNow <= r.to {
+						last = a
+					}
+				}
+				if last == nil || last.disclaimed != "" || w.conns[last.conn].script.StallC2S {
+					continue
+				}
+				if over := r.to - last.seenNow - M; over > 10*time.Millisecond {
+					mk("timeout-exceeded", "timeout-exceeded", fmt.Sprintf("RoundTrip for request %d returned (%s) %v after its request had reached the server on connection %d stream %d; MaxResponseTime is %v", k, r.err, r.to-last.seenNow, last.conn, last.stream, M))
+				}
+			}
+		}
+	}
+
 	if w.cfgErr != nil {
 		mk("configure", "configure", fmt.Sprintf("ConfigureClient failed against a conforming server: %v", w.cfgErr))
 		return
@@ -720,6 +755,7 @@ func GenC11(r *RNG) *C11Plan {
 			s.GoAwayLast = Pick(r, -1, 0, 1, 2, 3)
 			s.GoAwayCode = uint32(Pick(r, 0, 0, 2, 11))
 			s.GoAwayNotice = r.Intn(3) == 0
+			s.GoAwayRBit = r.Intn(6) == 0
 		case 3:
 			s.RefuseNth = 1 + r.Intn(n)
 		case 4:
